@@ -466,7 +466,7 @@ fn find_in_expr(expr: &Rc<Expr>, offset: usize) -> Option<AstNode> {
             }
             Some(expr.node())
         }
-        ExprKind::Unwrap(inner) | ExprKind::Try(inner) => {
+        ExprKind::Unwrap(inner) | ExprKind::Try(inner) | ExprKind::TaskBlock(inner) => {
             find_in_expr(inner, offset).or(Some(expr.node()))
         }
         ExprKind::Nil
@@ -474,7 +474,6 @@ fn find_in_expr(expr: &Rc<Expr>, offset: usize) -> Option<AstNode> {
         | ExprKind::Float(_)
         | ExprKind::Bool(_)
         | ExprKind::Str(_) => Some(expr.node()),
-        ExprKind::TaskBlock(_) => unimplemented!(),
     }
 }
 
@@ -940,13 +939,14 @@ fn find_ident_in_expr(expr: &Rc<Expr>, offset: usize) -> Option<AstNode> {
             }
             None
         }
-        ExprKind::Unwrap(inner) | ExprKind::Try(inner) => find_ident_in_expr(inner, offset),
+        ExprKind::Unwrap(inner) | ExprKind::Try(inner) | ExprKind::TaskBlock(inner) => {
+            find_ident_in_expr(inner, offset)
+        }
         ExprKind::Nil
         | ExprKind::Int(_)
         | ExprKind::Float(_)
         | ExprKind::Bool(_)
         | ExprKind::Str(_) => None,
-        ExprKind::TaskBlock(_) => unimplemented!(),
     }
 }
 
@@ -1112,7 +1112,8 @@ fn collect_vars_in_expr(expr: &Rc<Expr>, name: &str, out: &mut Vec<AstNode>) {
                 collect_vars_in_expr(elem, name, out);
             }
         }
-        ExprKind::Unwrap(inner) | ExprKind::Try(inner) => collect_vars_in_expr(inner, name, out),
-        ExprKind::TaskBlock(_) => unimplemented!(),
+        ExprKind::Unwrap(inner) | ExprKind::Try(inner) | ExprKind::TaskBlock(inner) => {
+            collect_vars_in_expr(inner, name, out)
+        }
     }
 }
